@@ -84,6 +84,11 @@ def frame_oracle(kind, ops, obs):
         if k == 'refused':
             # an empty graph, a node without GraphID or mixed GraphIDs on a direct entry point: the importer must raise
             # before the storage is touched
+            if raw[0] != 'imp':        # a singular setter called with prop_val=None
+                if o['r'][0] == 'ok' or o['s'] is not None:
+                    return 'step %d %s with a None value was not refused / changed the store' % (i, raw[0])
+                prev = cur
+                continue
             if o['r'][0] == 'ok':
                 return 'step %d importer %s accepted a graph it must refuse (%s)' % (
                     i, raw[4], 'empty graph' if not raw[2] else 'nodes do not all carry one GraphID')
@@ -118,6 +123,8 @@ def frame_oracle(kind, ops, obs):
             after = {n[0]: n[1] for n in cur.get(g, [[], []])[0]}
             if any(after.get(i) != ps for i, ps in before.items()) or len(after) != len(before) + 1:
                 return 'step %d add_node took the internal id of a stored node of graph %s' % (i, op[1])
+            if prev.get(g, [[], []])[1] != cur.get(g, [[], []])[1]:
+                return 'step %d add_node changed the links of graph %s (the new node inherited links)' % (i, op[1])
         if sc.rehomes(op):
             rehomed = True
         if rehomed:          # nodes may now sit in a graph their GraphID does not name: content checks are off
@@ -184,6 +191,9 @@ class Hist(Stream):
                 continue
             if rng.random() < 0.08:
                 out.append(sc.late_add_scenario(rng, extra=rng.randrange(0, 8)))
+                continue
+            if rng.random() < 0.08:
+                out.append(sc.delete_then_add_scenario(rng, extra=rng.randrange(0, 8)))
                 continue
             depth = rng.choice([8, 12, 16, 20, 25, 30])
             # merge_nodes is not among the operations C04 quantifies over (C05 covers it)
